@@ -35,6 +35,22 @@ def generate(seed, tier, index):
     rng = random.Random('%d/gen16' % seed)
     sc['config']['epoch_us'] = 0
     sc['config']['epoch2'] = rng.choice([1, 999, 1000, 123456789, rng.randrange(1, 1 << 32), (1 << 32) - 10**9])
+    if rng.random() < 0.2:
+        # "for all logs": lines stamped earlier than their predecessors (two processes writing one stderr), also earlier
+        # than the very first line; times stay positive because both epochs are far enough from zero
+        sc['config']['nonmonotonic'] = True
+        sc['config']['epoch_us'] = 50 * 10**6
+        sc['config']['epoch2'] = rng.choice([50 * 10**6 + 1, 123456789, rng.randrange(50 * 10**6, 1 << 31)])
+        out = []
+        budget = 40 * 10**6
+        for it in sc['intents']:
+            out.append(it)
+            if it[0] == 'tick' and rng.random() < 0.25:
+                back = rng.choice([1, 500, 999999, 1000000, 1000001, 2500000, rng.randint(1, 3000000)])
+                if back <= budget:
+                    budget -= back
+                    out.append(['tick', -back])
+        sc['intents'] = out
     return sc
 
 
@@ -107,9 +123,10 @@ def judge_times(sc, st, res, metas, V):
     names = oracles.conn_names(st)
     segs = S.segments(res.rec)
     fstate = S.initial_state(cfg.get('filter_model'), 'star')
+    sel = S.Selection()
     selected = None
     recorded = []
-    opened = []
+    opened = sel.opened
     line_items = [it for _, it in st.lines]
     li = ci = 0
     t0 = None
@@ -123,6 +140,8 @@ def judge_times(sc, st, res, metas, V):
 
     def check_pair(prev, cur, seps_before, where):
         gap = cur.t_us - prev.t_us
+        if gap < 0:
+            V.bump('fault_clock_went_backwards_between_shown')
         if gap == 1000000:
             V.bump('dontcare_exact_one_second')
             return
@@ -154,8 +173,7 @@ def judge_times(sc, st, res, metas, V):
                 continue
             cl = it
             nm = names[cl.conn]
-            if nm not in opened:
-                opened.append(nm)
+            sel.saw(cl, nm)
             recorded.append(cl)
             shown = [o for o in outs if o.kind == 'msg']
             if len(shown) == 1 and S.line_matches(shown[0], (nm, cl.target.iface, cl.target.id, W.letters(cl.target.gen), cl.name, shown[0].time)):
@@ -193,11 +211,8 @@ def judge_times(sc, st, res, metas, V):
             if t == 'filter' and meta.get('m') is not None and not meta.get('bad'):
                 fstate.apply(meta['m'])
             elif t == 'connection':
-                to = meta.get('to')
-                if to == 'all':
-                    selected = None
-                elif to is not None and not meta.get('bad') and to.upper() in opened:
-                    selected = to.upper()
+                sel.command(meta)
+                selected = sel.selected
             elif t == 'list':
                 shown = [o for o in outs if o.kind == 'msg']
                 if shown:
